@@ -22,7 +22,7 @@ Added after the seeding rounds (DESIGN.md 6.6-6.8):
             streaming method reads; RECOMPUTED  AQUA.alpha is a function of the current sample only.
 """
 import ast
-LINT_EXTRA_FILES = ("ahrs/common/orientation.py",)      # acc2q / am2q / ecompass helpers the filters start from
+LINT_EXTRA_FILES = ("ahrs/common/orientation.py", "ahrs/utils/core.py")      # acc2q / am2q / ecompass helpers the filters start from; the shared input validators
 from sa.desugar import desugared
 from sa.callgraph import call_sites, reachable, local_types
 from sa.flow import Alias
